@@ -557,6 +557,16 @@ impl Machine {
                     let c = tryx!(self.eval(cond));
                     if tryx!(c.is_zero()) {
                         let w = self.nodes[*wend].clone();
+                        // the loop is left behind a WEND that ends a THEN / ELSE part of another line:
+                        // whether that line counts as entered (traced) is not defined
+                        if self.tron && w.line != node.line {
+                            if let Succ::AfterLine(li) = w.next {
+                                let first = if li < self.line_first.len() { self.line_first[li] } else { self.prog_len };
+                                if (first..*wend).any(|k| matches!(self.nodes[k].n, N::If { .. })) {
+                                    return End::Undefined("WHILE left behind a WEND inside an IF of another line under TRON".into());
+                                }
+                            }
+                        }
                         next = self.resolve(&w.next);
                     }
                     self.branches += 1;
